@@ -7,6 +7,7 @@ def run(ctx):
                    'translators T2 (tensor.hpp get_index, Transpose, Diagonal/SymmetricTensor constructors) and T4 (write_affinity_file index expressions): regex + expression parser in tools/translate.py',
                    'correspondence K-LAYOUT: real accessors (&t(i,j,a) - data()) and write_affinity_file vs the extracted model, exhaustive for R,C,T <= 6 and K <= 6, L <= 4',
                    'modelled, not verified: the Python reshape in multitensor.pyx (extension not built here)']
+    gen.INTEGRAL[0] = True
     ctx.prove()
     if not ctx.build():
         return
@@ -93,6 +94,55 @@ def run(ctx):
             if d.get('dims') != [str(R), str(C), str(T), str(R * C * T)] or d.get('idx') != want or d.get('zeroed') != ['1']:
                 ctx.violation('layout-after-resize', 'after resize(%d,%d,%d) of a tensor that held %sx%sx%s the layout is not a*R*C + j*R + i on the new dimensions (or the data is not zeroed)' % (R, C, T, t[2], t[3], t[4]),
                               {'case': line, 'impl': d})
+    # ---- the affinity vector exchanged with callers (main.hpp): IN: a user-supplied NON-symmetric vector must reach the solver at the
+    #      documented positions (start state = vector + noise, compared with the model at `start:w`); OUT: the vector handed back is the
+    #      adopted realization's tensor in the same flat order (implementation's returned vector vs its own final state at the hook)
+    import oracles
+    ecases, emetas = [], {}
+    START_AFF = {}
+    for k in range(ctx.budget(60, 1500)):
+        sub = ctx.rng.fork('av%d' % k)
+        line, m = gen.gen_e2e(sub, 300000 + k, variant=(sub.chance(0.5), sub.chance(0.3), True), maxit_max=3, r_max=2, K=sub.rint(2, 4), trace=1)
+        # an asymmetric start: distinct entries everywhere
+        aff = [round(0.05 + 0.9 * sub.unit(), 6) for _ in m['aff']]
+        recs = m['recs']
+        line = gen.e2e_case(300000 + k, m['directed'], m['assort'], True, m['ltype'], m['wtype'], m['r'], m['maxit'], m['nconv'], m['seed'],
+                            [s_ for s_, _, _ in recs], [t_ for _, t_, _ in recs], [w_ for _, _, ws in recs for w_ in ws], aff, m['N'], m['K'], m['u0'],
+                            m['N'] if m['v0'] else 0, m['K'] if m['v0'] else 0, m['v0'], [], [], trace=1)
+        ecases.append(line)
+        emetas[300000 + k] = m
+        START_AFF[300000 + k] = aff
+    res_e = ctx.component('K-E2E(affinity vector in: start state)', ecases, keys={'status', 'start:w'})
+    if res_e:
+        for c, m in emetas.items():
+            tr = res_e['impl'].get('E %d' % c)
+            if not tr:
+                continue
+            d = oracles.trace_dict(tr)
+            if d['status'][0][0] != 'OK':
+                continue
+            # IN: entry p of every realization's start is the caller's entry p plus noise in [0, 0.1)
+            for t in tr:
+                if t[0] == 'start' and t[2] == 'w':
+                    got = oracles.floats(t[4:])
+                    src = START_AFF[c]
+                    if len(got) != len(src) or any(not (0.0 <= g - a_ < 0.1000001) for g, a_ in zip(got, src)):
+                        p_ = next((i_ for i_, (g, a_) in enumerate(zip(got, src)) if not (0.0 <= g - a_ < 0.1000001)), -1)
+                        ctx.violation('vector-in', 'start affinity of realization %s: flat entry %d is %r, the caller\'s vector has %r there (expected that value + noise in [0,0.1))' % (
+                            t[1], p_, got[p_] if 0 <= p_ < len(got) else None, src[p_] if 0 <= p_ < len(src) else None), {'case': ecases[c - 300000]})
+                        break
+            rep = oracles.parse_rep(tr)
+            fin = {}
+            for t in tr:
+                if t[0] == '@final' and t[3] == 'w':
+                    fin[int(t[1])] = t[5:]
+            Ls = [x[2] for x in rep]
+            if any(l != l for l in Ls) or not fin:
+                continue
+            best = oracles.first_argmax(Ls)
+            n_eval += 1
+            if Ls[best] > oracles.LOWEST and d['aff'][0][2:] != fin.get(best):
+                ctx.violation('vector-out', 'the affinity vector handed back is not the adopted realization\'s tensor in flat order a*K*K + q*K + k', {'case': ecases[c - 300000]})
     ctx.oracle.update({'evaluations': n_eval, 'distinct_nontrivial': nontrivial,
                        'rule': 'exhaustive: every dimension triple R,C,T <= %d (all index triples each) and every K <= 6, L <= 4, both tensor kinds for the writer; non-trivial = more than one element' % maxdim})
     ctx.extra['exhaustive'] = True
